@@ -34,7 +34,8 @@ CLAIMED = {
                 technique='Lean 4 proof (simulation between two traversals) + correspondence', ref='6 C03'),
     'C04': dict(text='Proved: C04_paths_refines (paths() on the encoding of any shape with one entry per child is the tree-level listing pathsT: '
                      'entries from the root to every leaf, in leaf order), C04_paths_count (one per leaf), C04_paths_of_flatten (holds for every '
-                     'treespec made by flatten), C04_paths_prefix_free (pairwise distinct and prefix-free when the child entries of every node are '
+                     'treespec made by flatten), C04_path_reaches_leaf (following the i-th path from the tree - position, dict key, registration entry - '
+                     'reaches exactly the i-th leaf flatten returned; Lemmas/UpToSelf.lean + UpToAlign.lean), C04_paths_prefix_free (pairwise distinct and prefix-free when the child entries of every node are '
                      'distinct); C04_path_of_accessor (accessor walk and path walk run in lock step: .path of the i-th accessor is the i-th path, any node '
                      'array), C04_path_of_accessor_leaf, C04_resolveEntryKind_not_auto. Accessor application to trees and codify/eval: oracle only.' + PARTIAL,
                 technique='Lean 4 proof (fuel induction over two index walkers) + correspondence', ref='6 C04'),
@@ -42,7 +43,7 @@ CLAIMED = {
                      'C05_inplace_returns_tree; and through the refinement theorems of C07 (flatten_up_to = structural match against the first '
                      "tree's shape): C05_rest_accepted_iff_suffix (an extra tree is accepted iff the first tree's shape is a prefix of its shape), "
                      'C05_non_suffix_rejected (one non-suffix extra tree makes tree_map fail before any call), C05_rest_one_per_leaf, '
-                     'C05_rest_aligned (the i-th sub-tree an extra tree contributes is the one reached from it by following the i-th leaf path of '
+                     'C05_self_rest (the tree matched against its own treespec yields its leaves), C05_rest_aligned (the i-th sub-tree an extra tree contributes is the one reached from it by following the i-th leaf path of '
                      'the first tree: positions, dict keys whatever the dict kind or order, registration entries; Lemmas/UpToAlign.lean). '
                      'The with_path / with_accessor variants and walk / traverse: correspondence + reference alignment in the oracle.' + PARTIAL,
                 technique='Lean 4 proof about the ops.py model, using the flatten_up_to refinement + correspondence', ref='6 C05'),
